@@ -4,6 +4,7 @@ import (
 	"fmt"
 	"os"
 	"path/filepath"
+	"regexp"
 	"sort"
 	"strings"
 	"syscall"
@@ -147,6 +148,11 @@ func C19Case(r *Runner, base string, tape *sim.Tape) *Outcome {
 		inj = &Inject{Kind: injectKinds[tape.Draw(len(injectKinds))], PathRe: ".", Nth: tape.Draw(4),
 			Times: []int{1, 2, 3, 4, 5, -1}[tape.Draw(6)], Errno: int(injectErrnos[tape.Draw(len(injectErrnos))]), Short: tape.Draw(2) == 0}
 	}
+	// where the error lands: 0 = one of the first occurrences of the operation anywhere (as
+	// drawn above); 1 = the LAST occurrence on one path of the fault-free run (the final
+	// flush, the last read before EOF, the closing rename); 2 = any occurrence on one path
+	nthMode, nthPick := tape.Draw(3), tape.Draw(1<<20)
+	var trace0 []TraceOp
 	ex := c.Inv.Expect(c.Tree)
 	out.stat("shape_"+c.Shape, 1)
 	work, err := NewWork(base)
@@ -184,6 +190,9 @@ func C19Case(r *Runner, base string, tape *sim.Tape) *Outcome {
 			return out
 		}
 		out.Evals++
+		if run == 0 {
+			trace0 = co.Trace
+		}
 		if co.Res != nil {
 			out.stat("fs_ops", int64(co.Res.Ops))
 			out.stat("sched_preemptions", int64(co.Res.Preempts))
@@ -251,6 +260,31 @@ func C19Case(r *Runner, base string, tape *sim.Tape) *Outcome {
 		if _, err := fresh(); err != nil {
 			out.Infra = "materialise: " + err.Error()
 			return out
+		}
+		if nthMode > 0 {
+			count := map[string]int{}
+			var names []string
+			for _, op := range trace0 {
+				if op.Kind == inj.Kind && op.Path != "" && !strings.HasPrefix(op.Path, "<") {
+					if count[op.Path] == 0 {
+						names = append(names, op.Path)
+					}
+					count[op.Path]++
+				}
+			}
+			sort.Strings(names)
+			if len(names) > 0 {
+				name := names[nthPick%len(names)]
+				inj.PathRe = "^" + regexp.QuoteMeta(name) + "$"
+				inj.Nth = count[name] - 1
+				if nthMode == 2 {
+					inj.Nth = (nthPick >> 8) % count[name]
+				}
+				out.stat("io_error_aimed_at_one_path", 1)
+				if nthMode == 1 && count[name] > 1 {
+					out.stat("io_error_on_last_of_several_occurrences", 1)
+				}
+			}
 		}
 		p := &Plan{Tape: sched, Stick: stick, CrashAt: -1, TornAt: -1, Inject: []*Inject{inj}, Chunks: chunks}
 		co, err := r.Run(work, c.Inv, p)
